@@ -276,6 +276,7 @@ def run(model: RepoModel, rep, tier: str):
     rep.rule("C16.R7", "0 and False are values, not missing data: the emptiness helpers the tables are indexed and queried with decide numbers "
                        "by math.isnan only -- the falsy test (`not element`) is reached only after an isinstance test that covers int", 2)
     _r7_zero_is_a_value(model, rep)
+    _r8_own_frame_and_positions(model, rep)
 
     # ---- methods that mark on every path (summary fixpoint)
     always_marks: Set[str] = set()
@@ -580,6 +581,60 @@ def _chain_is_container_of_self(node, fld: str) -> bool:
     while isinstance(cur, ast.Subscript):
         cur = cur.value
     return is_self_attr(cur, fld)
+
+
+def _r8_own_frame_and_positions(model: RepoModel, rep):
+    """Two structural conditions of "positions returned are valid for the current table":
+    (a) reset_index really resets: every path through it reaches the pandas reset (a slice of a default-indexed frame still has a
+        RangeIndex, but one that starts at the slice's first row -- "already a RangeIndex" is not "already 0..n-1");
+    (b) outside the constructor / loader, `self._data` is bound to a frame the table owns -- the result of a pandas operation on its
+        own data -- never to a frame taken from an argument as it is (shared object, foreign row labels)."""
+    rep.rule("C16.R8", "row labels are positions after reset_index on every path, and a table never adopts another table's frame object outside its "
+                       "constructor", 2)
+    dm = next((c for m_ in model.modules.values() if m_.rel == "util/data_model.py" for c in m_.classes.values() if c.name == "DataModel"), None)
+    if dm is None:
+        raise AnalysisError("DataModel vanished")
+    REL = "util/data_model.py"
+    ri = dm.methods.get("reset_index")
+    if ri is None:
+        raise AnalysisError("DataModel.reset_index vanished")
+    cfg = cfg_of(ri.node)
+    resets = {n for n in cfg.g.nodes for c in cfg.calls_at(n) if isinstance(c.func, ast.Attribute) and c.func.attr == "reset_index" and not is_self_attr(c.func)}
+    key = f"{REL}::DataModel.reset_index::every path resets the row labels"
+    p_ = cfg.path_avoiding(cfg.ENTRY, cfg.EXIT, resets)
+    if resets and p_ is None:
+        rep.holds("C16.R8", key, REL, ri.node.lineno, "every path from entry to return passes `<frame>.reset_index(...)`")
+    else:
+        rep.violation("C16.R8", key, REL, ri.node.lineno,
+                      f"DataModel.reset_index can return without resetting ({' -> '.join(cfg.describe_path(p_)[:6]) if p_ else 'no pandas reset_index call'}): a slice "
+                      f"keeps its parent's row labels (a RangeIndex that starts at the slice's first row), so after slice(2, 6).reset_index() "
+                      f"access(0, col) raises KeyError and modify_element(0, ...) appends a row instead of changing one")
+    for name, f in sorted(dm.methods.items()):
+        if name in ("__init__", "load", "copy", "deepcopy", "__copy__", "__deepcopy__"):
+            continue
+        params = set(f.params[1:])
+        for a in walk_no_nested(f.node):
+            if isinstance(a, ast.Assign) and any(is_self_attr(t, "_data") for t in a.targets):
+                v = a.value
+                roots = {v.id} if isinstance(v, ast.Name) else ({v.value.id} if isinstance(v, ast.Attribute) and isinstance(v.value, ast.Name) else set())
+                # a local bound to a parameter or to a parameter's frame
+                adopted = None
+                for r_ in roots:
+                    if r_ in params:
+                        adopted = r_
+                    for d in walk_no_nested(f.node):
+                        if isinstance(d, ast.Assign) and isinstance(d.targets[0], ast.Name) and d.targets[0].id == r_:
+                            dv = d.value
+                            if (isinstance(dv, ast.Name) and dv.id in params) or (isinstance(dv, ast.Attribute) and isinstance(dv.value, ast.Name) and dv.value.id in params):
+                                adopted = r_
+                key = f"{REL}::DataModel.{name}::`{norm(a)[:60]}`::the table owns its frame"
+                if adopted and not isinstance(v, ast.Call):
+                    rep.violation("C16.R8", key, REL, a.lineno,
+                                  f"DataModel.{name} binds `self._data` to `{norm(v)}`, a frame taken from its argument as it is: the two tables share one "
+                                  f"DataFrame (a change through one bypasses the other's caches) and the receiver inherits the source's row labels "
+                                  f"(a slice that starts at row 2 is addressed 2, 3, 4 ... while the table hands out positions 0, 1, 2)")
+                else:
+                    rep.holds("C16.R8", key, REL, a.lineno, "result of an operation on the table's own data")
 
 
 def _r7_zero_is_a_value(model: RepoModel, rep):
